@@ -92,6 +92,17 @@ def check(ctx):
         if rng.random() < 0.3:
             z = list(s); z[rng.randrange(n)] = 0
             lines += [call("split_char", z, [32]), call("trim", z), call("memmem", z, [0]), call("replace", z, [0], [97])]
+    # strings and token counts around and beyond the 8-bit boundary (300 tokens, strings of 255..1000 bytes)
+    for n in (255, 256, 257, 300, 600, 1000):
+        s = [rng.choice(ALPHA + [9, 13]) if rng.random() < 0.5 else rng.randrange(1, 256) for _ in range(n)]
+        lines += calls_for(rng, s, False)
+        toks = [ord(c) for c in " ".join(rng.choice(["a", "bc", "cmd", "x"]) for _ in range(n // 2))]
+        for sh in ("mshell", "mshell_tables", "rshell", "rshell_tables"):
+            lines.append(call(sh, toks))
+        lines.append(call("argv", toks, n=rng.choice([10, 255, 256, 300]))); lines.append(call("argv_n", toks, n=rng.choice([10, 255, 256])))
+        lines.append(call("split_char", toks, [32])); lines.append(call("split_set", toks, [32, 99]))
+        path = [ord(c) for c in "/".join(rng.choice(["dev", "a", ".", "xy"]) for _ in range(n // 3))]
+        lines += [call("path_next", path), call("path_iterate", path), call("compare_node", path, path[:n // 2]), call("remove_prefix", path, path[:len(path) // 2])]
     script = []
     for i, ln in enumerate(lines):
         if i % 400 == 0: script.append("R")
